@@ -1092,3 +1092,114 @@ func (la *lockAnalysis) readOnlyRec(fn *ssa.Function, d int) bool {
 	})
 	return ok
 }
+
+// leafGuardedFields: runner fields that are guarded not by the state lock but by a second mutex of the runner (a "leaf" mutex
+// for counters and the like): every access to the field anywhere in the module lies, within its function, behind a Lock of that
+// same mutex that dominates it with no Unlock of it in between (a deferred Unlock releases at the exit). Writes need the
+// exclusive Lock. Returns field name → mutex field name.
+func (la *lockAnalysis) leafGuardedFields() map[string]string {
+	out := map[string]string{}
+	rs := structOf(la.runnerT)
+	var leaf []string
+	for i := 0; i < rs.NumFields(); i++ {
+		f := rs.Field(i)
+		if ts := f.Type().String(); (ts == "sync.Mutex" || ts == "sync.RWMutex") && canonField(f) != la.mxName {
+			leaf = append(leaf, canonField(f))
+		}
+	}
+	if len(leaf) == 0 {
+		return out
+	}
+	// op on mutex field m of a runner value: "Lock" | "RLock" | "Unlock" | "RUnlock" | ""
+	opOn := func(c *ssa.CallCommon, m string) string {
+		f := c.StaticCallee()
+		if f == nil || len(c.Args) == 0 {
+			return ""
+		}
+		name := f.Name()
+		if name != "Lock" && name != "RLock" && name != "Unlock" && name != "RUnlock" {
+			return ""
+		}
+		fa, ok := c.Args[0].(*ssa.FieldAddr)
+		if !ok || fieldName(fa.X.Type(), fa.Field) != m {
+			return ""
+		}
+		if n := namedOf(fa.X.Type()); n == nil || n.Obj() != la.runnerT.Obj() {
+			return ""
+		}
+		return name
+	}
+	held := func(in ssa.Instruction, m string, write bool) bool {
+		fn := in.Parent()
+		var locks, unlocks []ssa.Instruction
+		allInstrs(fn, func(x ssa.Instruction) {
+			c := callCommonOf(x)
+			if c == nil {
+				return
+			}
+			if _, isDefer := x.(*ssa.Defer); isDefer {
+				return
+			}
+			switch opOn(c, m) {
+			case "Lock":
+				locks = append(locks, x)
+			case "RLock":
+				if !write {
+					locks = append(locks, x)
+				}
+			case "Unlock", "RUnlock":
+				unlocks = append(unlocks, x)
+			}
+		})
+		dom := false
+		for _, l := range locks {
+			if instrDominates(l, in) {
+				dom = true
+			}
+		}
+		if !dom {
+			return false
+		}
+		isLock := func(x ssa.Instruction) bool {
+			for _, l := range locks {
+				if l == x {
+					return true
+				}
+			}
+			return false
+		}
+		if len(unlocks) > 0 {
+			if (PathQuery{Fn: fn, Start: unlocks, Target: func(x ssa.Instruction) bool { return x == in }, BlockInstr: isLock}).Find().Found {
+				return false
+			}
+		}
+		return true
+	}
+	// all accesses per runner field
+	byField := map[string][]*accessOb{}
+	for _, ob := range la.access {
+		if i := strings.Index(ob.what, "PipelineRunner."); i >= 0 {
+			rest := ob.what[i+len("PipelineRunner."):]
+			j := 0
+			for j < len(rest) && (rest[j] == '_' || rest[j] >= '0' && rest[j] <= '9' || rest[j] >= 'a' && rest[j] <= 'z' || rest[j] >= 'A' && rest[j] <= 'Z') {
+				j++
+			}
+			byField[rest[:j]] = append(byField[rest[:j]], ob)
+		}
+	}
+	for f, obs := range byField {
+		for _, m := range leaf {
+			all := len(obs) > 0
+			for _, ob := range obs {
+				if !held(ob.in, m, ob.write) {
+					all = false
+					break
+				}
+			}
+			if all {
+				out[f] = m
+			}
+		}
+	}
+	return out
+}
